@@ -42,6 +42,9 @@ func checkC08(c *Ctx, r *Report) {
 	c08d(c, r)
 	// the object parser gives every nested parse its own context; the global parser must give it its own stack
 	c15FreshStackAll(r, "C08.b←C15.c", st)
+	// the packed variants (default) and the dense ones (-u, TypeScript) read the same table only if packing is
+	// lossless: C05 is a prerequisite of "all variants run the same automaton"
+	includePrereq(c, r, "C08.e", checkC05)
 }
 
 func c08a(c *Ctx, r *Report, st *Staged) {
